@@ -129,6 +129,12 @@ struct Case {
     /// candidates present (for statistics)
     present: usize,
     kind: &'static str,
+    /// explicit Lua extension in the require ("" | ".lua" | ".luau"), spelling and layout ids
+    ext: &'static str,
+    deco: usize,
+    mask: u32,
+    /// id of the listed finding whose region this case lies in ("" = inside every hypothesis)
+    region: &'static str,
 }
 
 impl Case {
@@ -162,6 +168,10 @@ impl Case {
             expect: None,
             present: 0,
             kind: "replay",
+            ext: "",
+            deco: 0,
+            mask: 0,
+            region: "",
         })
     }
 
@@ -407,9 +417,11 @@ fn spell(head: &str, tail: &[&str], ext: &str, deco: usize) -> Option<String> {
     }
 }
 
+#[derive(Clone)]
 struct Universe {
     masks: Vec<u32>,
     decos: Vec<usize>,
+    region: &'static str,
 }
 
 fn push_cases(
@@ -478,6 +490,10 @@ fn push_cases(
                         expect: Some(expect),
                         present: present.len(),
                         kind,
+                        ext,
+                        deco,
+                        mask,
+                        region: u.region,
                     });
                 }
             }
@@ -503,8 +519,8 @@ fn labelled_cases(thorough: bool, rng: &mut Rng) -> Vec<Case> {
             }
         }
     }
-    let plain = Universe { masks: all_masks.clone(), decos: vec![0] };
-    let decorated = Universe { masks: some_masks, decos: vec![1, 2, 3, 4, 5] };
+    let plain = Universe { masks: all_masks.clone(), decos: vec![0], region: "" };
+    let decorated = Universe { masks: some_masks, decos: vec![1, 2, 3, 4, 5], region: "" };
     let mut out = Vec::new();
     let tails: [&[&str]; 4] = [&["m"], &["sub", "m"], &["..", "m"], &["..", "lib", "m"]];
 
@@ -561,6 +577,10 @@ fn labelled_cases(thorough: bool, rng: &mut Rng) -> Vec<Case> {
                 expect: Some(Expect::UnknownSource),
                 present: 0,
                 kind: "path-unknown-source",
+                ext: "",
+                deco: 0,
+                mask: 0,
+                region: "",
             });
         }
         // ---- absolute requires
@@ -630,7 +650,29 @@ fn labelled_cases(thorough: bool, rng: &mut Rng) -> Vec<Case> {
             expect: Some(Expect::UnknownSource),
             present: 0,
             kind: "luau-unknown-alias",
+            ext: "",
+            deco: 0,
+            mask: 0,
+            region: "",
         });
+    }
+    // ---- regions of listed findings (judged like the others; failures there are expected)
+    // F25: a module-folder file whose directory has no name to strip (`init.luau`, `../init.luau`, `/init.luau`)
+    let f25 = Universe { region: "F25", ..plain.clone() };
+    for source in ["init.luau", "./init.luau", "../init.luau", "/init.luau"] {
+        let mut base = walk(&cwd(), source);
+        base.pop();
+        base.pop();
+        for tail in [&["m"][..], &["sub", "m"][..]] {
+            push_cases(&mut out, &f25, "luau-relative-module-toplevel", &luau, ".", source, &base, "", tail, "init");
+        }
+    }
+    // F26: the documentation allows luau aliases without `@`
+    let f26 = Universe { region: "F26", ..plain.clone() };
+    let mode = Mode::Luau { aliases: vec![(s("pkg"), s("./lib")), (s("images"), s("./assets/data.json"))] };
+    let base = walk(&cwd(), "lib");
+    for tail in [&["m"][..], &["sub", "m"][..]] {
+        push_cases(&mut out, &f26, "luau-alias-without-at", &mode, ".", "src/main.luau", &base, "pkg", tail, "init");
     }
     out
 }
@@ -676,6 +718,10 @@ fn random_cases(n: usize, rng: &mut Rng) -> Vec<Case> {
             expect: None,
             present: nfiles,
             kind: "random",
+            ext: "",
+            deco: 0,
+            mask: 0,
+            region: "",
         });
     }
     out
@@ -704,6 +750,221 @@ fn run_find_cases(cases: &[Case], threads: usize) -> Vec<FindOutcome> {
                         let (real, real_path) = real_find(case);
                         let oracle = oracle_find(case, &real, &real_path);
                         local.push(FindOutcome { idx: t * chunk.max(1) + b * 4000 + i, real, model: answer, oracle });
+                    }
+                }
+                local
+            }));
+        }
+        for h in handles {
+            outcomes.extend(h.join().expect("worker thread"));
+        }
+    });
+    outcomes
+}
+
+// ------------------------------------------------------------------------------------------
+// convert_require
+
+fn mode_json5(mode: &Mode) -> String {
+    match mode {
+        Mode::Path { folder, sources } => format!(
+            "{{ name: 'path', module_folder_name: {:?}, sources: {{ {} }}, use_luau_configuration: false }}",
+            folder,
+            json5_map(sources)
+        ),
+        Mode::Luau { aliases } => format!("{{ name: 'luau', aliases: {{ {} }}, use_luau_configuration: false }}", json5_map(aliases)),
+    }
+}
+
+fn mode_to_json(mode: &Mode) -> Value {
+    let (name, folder, map) = match mode {
+        Mode::Path { folder, sources } => ("path", folder.clone(), sources.clone()),
+        Mode::Luau { aliases } => ("luau", "init".to_owned(), aliases.clone()),
+    };
+    json!({"mode": name, "folder": folder, "map": map.iter().map(|(k, v)| json!([k, v])).collect::<Vec<_>>()})
+}
+
+fn mode_from_json(v: &Value) -> Option<Mode> {
+    let map: Vec<(String, String)> = v["map"]
+        .as_array()?
+        .iter()
+        .filter_map(|e| Some((e[0].as_str()?.to_owned(), e[1].as_str()?.to_owned())))
+        .collect();
+    match v["mode"].as_str()? {
+        "path" => Some(Mode::Path { folder: v["folder"].as_str()?.to_owned(), sources: map }),
+        "luau" => Some(Mode::Luau { aliases: map }),
+        _ => None,
+    }
+}
+
+fn mode_wire(mode: &Mode) -> String {
+    match mode {
+        Mode::Path { folder, sources } => format!("path {} {}", hx(folder), map_wire(sources)),
+        Mode::Luau { aliases } => format!("luau {} {}", hx("init"), map_wire(aliases)),
+    }
+}
+
+/// the real rule (`ConvertRequire::process`) on `return require("<req>")`: the argument afterwards
+fn real_convert(case: &Case, target: &Mode) -> Result<String, String> {
+    use darklua_core::nodes::{Arguments, Expression, LastStatement};
+    use darklua_core::rules::{ContextBuilder, Rule};
+    let case = case.clone();
+    let target = target.clone();
+    std::panic::catch_unwind(move || {
+        let resources = Resources::from_memory();
+        for f in &case.files {
+            resources.write(f, &format!("return {:?}", f)).unwrap();
+        }
+        let code = format!("return require({:?})", case.req);
+        let rule: Box<dyn Rule> = json5::from_str(&format!(
+            "{{ rule: 'convert_require', current: {}, target: {} }}",
+            mode_json5(&case.mode),
+            mode_json5(&target)
+        ))
+        .map_err(|e| format!("configuration: {}", e))?;
+        let mut block = darklua_core::Parser::default().parse(&code).map_err(|e| format!("parse: {}", e))?;
+        let context = ContextBuilder::new(&case.source, &resources, &code).with_project_location(&case.proj).build();
+        rule.process(&mut block, &context).map_err(|e| format!("rule: {}", e))?;
+        let last = block.get_last_statement().ok_or("no return")?;
+        if let LastStatement::Return(ret) = last {
+            for e in ret.iter_expressions() {
+                if let Expression::Call(call) = e {
+                    match call.get_arguments() {
+                        Arguments::Tuple(t) => {
+                            for v in t.iter_values() {
+                                if let Expression::String(st) = v {
+                                    return Ok(String::from_utf8_lossy(st.get_value()).into_owned());
+                                }
+                            }
+                        }
+                        Arguments::String(st) => return Ok(String::from_utf8_lossy(st.get_value()).into_owned()),
+                        _ => {}
+                    }
+                }
+            }
+        }
+        Err("no require call left".to_owned())
+    })
+    .unwrap_or_else(|_| Err("panic".to_owned()))
+}
+
+struct ConvCase {
+    case: Case,
+    target: Mode,
+}
+
+fn rename_aliases(map: &[(String, String)], at: bool) -> Vec<(String, String)> {
+    map.iter()
+        .map(|(k, v)| {
+            let bare = k.trim_start_matches('@');
+            (if at { format!("@{}", bare) } else { bare.to_owned() }, v.clone())
+        })
+        .collect()
+}
+
+fn convert_cases(labelled: &[Case], thorough: bool) -> Vec<ConvCase> {
+    let masks: &[u32] = if thorough { &[1, 2, 4, 8, 16, 32, 3, 6, 12, 24, 48, 5, 36, 63, 62, 60] } else { &[1, 2, 4, 8, 16, 32, 6, 36, 63] };
+    let mut out = Vec::new();
+    for c in labelled {
+        if !masks.contains(&c.mask) || !(c.deco == 0 || (thorough && c.deco == 2)) || !c.region.is_empty() {
+            continue;
+        }
+        let targets: Vec<Mode> = match &c.mode {
+            Mode::Path { sources, .. } => {
+                let mut t = vec![Mode::Luau { aliases: vec![] }];
+                if !sources.is_empty() {
+                    t.push(Mode::Luau { aliases: rename_aliases(sources, true) });
+                }
+                t
+            }
+            Mode::Luau { aliases } => {
+                let mut t = vec![Mode::Path { folder: s("init"), sources: vec![] }, Mode::Path { folder: s("index"), sources: vec![] }];
+                if !aliases.is_empty() {
+                    t.push(Mode::Path { folder: s("init"), sources: rename_aliases(aliases, false) });
+                }
+                t
+            }
+        };
+        for target in targets {
+            out.push(ConvCase { case: c.clone(), target });
+        }
+    }
+    out
+}
+
+/// what a call `require("<literal>")` resolves to: the literal is normalised first
+/// (match_require.rs), reproduced here with the real normaliser
+fn real_find_call(case: &Case) -> (String, Option<PathBuf>) {
+    let mut c = case.clone();
+    c.req = vh::normalize_path_with_current_dir(Path::new(&case.req)).to_str().unwrap_or("").to_owned();
+    real_find(&c)
+}
+
+/// the property's demand on a conversion: resolve before, convert, resolve the new argument
+/// under the target mode, same location. Returns (file found before, failure).
+fn convert_oracle(case: &Case, target: &Mode, real_arg: &Result<String, String>) -> (Option<PathBuf>, Option<String>) {
+    let (_, before) = real_find_call(case);
+    let mut oracle = None;
+    if let Some(before_path) = &before {
+        match real_arg {
+            Ok(arg) => {
+                let mut again = case.clone();
+                again.mode = target.clone();
+                again.req = arg.clone();
+                let (after_text, after) = real_find_call(&again);
+                let want = walk(&cwd(), before_path.to_str().unwrap_or(""));
+                match after {
+                    Some(p) if walk(&cwd(), p.to_str().unwrap_or("")) == want => {}
+                    Some(p) => oracle = Some(format!("`{}` resolved to `{}`; converted to `{}` it resolves to `{}`", case.req, before_path.display(), arg, p.display())),
+                    None => oracle = Some(format!("`{}` resolved to `{}`; converted to `{}` it gives `{}`", case.req, before_path.display(), arg, after_text)),
+                }
+            }
+            Err(e) => oracle = Some(format!("the rule failed: {}", e)),
+        }
+    }
+    (before, oracle)
+}
+
+struct ConvOutcome {
+    idx: usize,
+    real_arg: Result<String, String>,
+    model: String,
+    /// (original location, location after conversion or error text)
+    oracle: Option<String>,
+    found_ok: bool,
+}
+
+fn run_convert_cases(cases: &[ConvCase], threads: usize) -> Vec<ConvOutcome> {
+    let chunk = ((cases.len() + threads - 1) / threads.max(1)).max(1);
+    let mut outcomes = Vec::with_capacity(cases.len());
+    std::thread::scope(|scope| {
+        let mut handles = Vec::new();
+        for (t, part) in cases.chunks(chunk).enumerate() {
+            handles.push(scope.spawn(move || {
+                let mut model = Model::spawn();
+                let mut local = Vec::with_capacity(part.len());
+                for (b, batch) in part.chunks(2000).enumerate() {
+                    let requests: Vec<String> = batch
+                        .iter()
+                        .map(|c| {
+                            format!(
+                                "c15.conv {} {} {} {} {} {}",
+                                mode_wire(&c.case.mode),
+                                mode_wire(&c.target),
+                                hx(&c.case.proj),
+                                list_wire(&c.case.files),
+                                hx(&c.case.source),
+                                hx(&c.case.req)
+                            )
+                        })
+                        .collect();
+                    let answers = model.ask_batch(&requests);
+                    for (i, (cc, answer)) in batch.iter().zip(answers).enumerate() {
+                        let real_arg = real_convert(&cc.case, &cc.target);
+                        // oracle: resolve before, convert, resolve the new argument under the target mode
+                        let (before, oracle) = convert_oracle(&cc.case, &cc.target, &real_arg);
+                        let before_ok = before.is_some();
+                        local.push(ConvOutcome { idx: t * chunk + b * 2000 + i, real_arg, model: answer, oracle, found_ok: before_ok });
                     }
                 }
                 local
@@ -1002,8 +1263,12 @@ A locator case is non-trivial when at least one candidate file exists (the loop 
             report.hist("candidates-present", &case.present.to_string());
         }
         if let Some(what) = &o.oracle {
-            *oracle_failures.entry(case.kind).or_default() += 1;
-            report.violation(Violation { kind: s("oracle"), check: format!("first-existing-candidate/{}", case.kind), what: what.clone(), input: case.to_json(), failing_input_found: true });
+            if !case.region.is_empty() && known_entry(&known, case.region).is_some() {
+                report.hist("locator-failures-in-listed-regions", case.region);
+            } else {
+                *oracle_failures.entry(case.kind).or_default() += 1;
+                report.violation(Violation { kind: s("oracle"), check: format!("first-existing-candidate/{}", case.kind), what: what.clone(), input: case.to_json(), failing_input_found: true });
+            }
         }
         if o.real != o.model {
             mismatches.push(o);
@@ -1011,7 +1276,7 @@ A locator case is non-trivial when at least one candidate file exists (the loop 
     }
     for o in mismatches {
         let case = &cases[o.idx];
-        if o.oracle.is_some() {
+        if o.oracle.is_some() && (case.region.is_empty() || known_entry(&known, case.region).is_none()) {
             continue; // already reported as the property failing on this very input
         }
         // neighbours (same mode and requiring file, every layout and spelling) are all part of
@@ -1026,6 +1291,64 @@ A locator case is non-trivial when at least one candidate file exists (the loop 
         v["files"] = json!(c.files.iter().take(4).collect::<Vec<_>>());
         report.sample(v);
     }
+    // ---- D. convert_require between the path and luau modes
+    let conv_cases = convert_cases(&cases[..labelled], thorough);
+    let conv_outcomes = run_convert_cases(&conv_cases, threads);
+    let f28_known = known_entry(&known, "F28").is_some();
+    let f29_known = known_entry(&known, "F29").is_some();
+    for o in &conv_outcomes {
+        let cc = &conv_cases[o.idx];
+        let case = &cc.case;
+        report.case(if o.found_ok { Some(hash_of(&("conv", format!("{:?}{:?}", case.mode, cc.target), &case.proj, &case.files, &case.source, &case.req))) } else { None });
+        let direction = match (&case.mode, &cc.target) {
+            (Mode::Path { .. }, _) => "path->luau",
+            _ => "luau->path",
+        };
+        report.hist("convert-direction", direction);
+        // model answer: none | arg <hex> found <wire> hconv <b> again <wire>
+        let (model_arg, hconv) = if o.model == "none" {
+            (None, None)
+        } else {
+            let arg = o.model.strip_prefix("arg ").and_then(|r| r.split(' ').next()).and_then(crate::model::unhex).map(|b| String::from_utf8_lossy(&b).into_owned());
+            let h = o.model.split(" hconv ").nth(1).and_then(|r| r.split(' ').next()).map(|b| b == "true");
+            (arg, h)
+        };
+        let mut input = case.to_json();
+        input["op"] = json!("conv");
+        input["target"] = mode_to_json(&cc.target);
+        if let Some(what) = &o.oracle {
+            let region = if hconv == Some(false) {
+                "F28"
+            } else if !case.ext.is_empty() {
+                "F29"
+            } else {
+                ""
+            };
+            report.hist("convert-oracle", if region.is_empty() { "fails" } else { region });
+            let excused = (region == "F28" && f28_known) || (region == "F29" && f29_known);
+            if !excused {
+                report.violation(Violation { kind: s("oracle"), check: format!("convert-keeps-target/{}", direction), what: what.clone(), input: input.clone(), failing_input_found: true });
+            }
+        } else if o.found_ok {
+            report.hist("convert-oracle", "keeps target");
+        } else {
+            report.hist("convert-oracle", "require does not resolve (left alone)");
+        }
+        let real_arg = match &o.real_arg {
+            Ok(a) => a.clone(),
+            Err(e) => format!("<{}>", e),
+        };
+        let agrees = match &model_arg {
+            None => o.model == "none" && real_arg == case.req,
+            Some(a) => a == &real_arg,
+        };
+        if !agrees && o.oracle.is_none() {
+            report.violation(Violation { kind: s("correspondence"), check: format!("generate-require/{}", direction), what: format!("real argument `{}` model `{}`", real_arg, o.model), input, failing_input_found: false });
+        } else if !agrees {
+            report.count("convert_mismatch_on_failing_input", 1);
+        }
+    }
+    report.count("convert_cases", conv_cases.len() as u64);
     report.count("locator_labelled_cases", labelled as u64);
     report.count("model_requests", model.requests);
 }
@@ -1063,6 +1386,18 @@ fn replay_known(report: &mut Report, known: &[Value]) {
                     }
                 }
             }
+            Some("conv") => {
+                if let (Some(case), Some(target)) = (Case::from_json(w), mode_from_json(&w["target"])) {
+                    let arg = real_convert(&case, &target);
+                    let (_, failure) = convert_oracle(&case, &target, &arg);
+                    let wrong = w["wrong_output"].as_str().unwrap_or("");
+                    match (failure, &arg) {
+                        (None, _) => {}
+                        (Some(what), Ok(a)) if a == wrong => report.known_finding(id, &what),
+                        (Some(what), _) => report.violation(Violation { kind: s("finding-changed"), check: format!("known-finding/{}", id), what, input: w.clone(), failing_input_found: true }),
+                    }
+                }
+            }
             _ => {}
         }
     }
@@ -1087,6 +1422,23 @@ fn check_corpus_entry(report: &mut Report, model: &mut Model, v: &Value, known: 
                 report.violation(Violation { kind: s("oracle"), check: s("corpus/normalize"), what, input: input.clone(), failing_input_found: true });
             } else if real != m {
                 report.violation(Violation { kind: s("correspondence"), check: s("corpus/normalize"), what: format!("real `{}` model `{}`", real, m), input: input.clone(), failing_input_found: false });
+            }
+        }
+        Some("conv") => {
+            if let (Some(case), Some(target)) = (Case::from_json(input), mode_from_json(&input["target"])) {
+                let arg = real_convert(&case, &target);
+                let (before, failure) = convert_oracle(&case, &target, &arg);
+                let m = model.ask(&format!("c15.conv {} {} {} {} {} {}", mode_wire(&case.mode), mode_wire(&target), hx(&case.proj), list_wire(&case.files), hx(&case.source), hx(&case.req)));
+                report.case(Some(("corpus-conv", input.to_string())));
+                let hconv = m.split(" hconv ").nth(1).and_then(|r| r.split(' ').next()).map(|b| b == "true");
+                let model_arg = m.strip_prefix("arg ").and_then(|r| r.split(' ').next()).and_then(crate::model::unhex).map(|b| String::from_utf8_lossy(&b).into_owned());
+                let ext_explicit = case.req.ends_with(".lua") || case.req.ends_with(".luau") || case.req.ends_with("/");
+                let excused = (hconv == Some(false) && known_entry(known, "F28").is_some()) || (ext_explicit && known_entry(known, "F29").is_some());
+                if let Some(what) = failure.filter(|_| !excused) {
+                    report.violation(Violation { kind: s("oracle"), check: s("corpus/convert"), what, input: input.clone(), failing_input_found: true });
+                } else if before.is_some() && arg.as_ref().ok() != model_arg.as_ref() {
+                    report.violation(Violation { kind: s("correspondence"), check: s("corpus/convert"), what: format!("real `{:?}` model `{}`", arg, m), input: input.clone(), failing_input_found: false });
+                }
             }
         }
         Some("find") => {
@@ -1119,7 +1471,7 @@ fn run_replay(report: &mut Report, file: &str) {
         }
     };
     let mut model = Model::spawn();
-    check_corpus_entry(report, &mut model, &v, &[]);
+    check_corpus_entry(report, &mut model, &v, &known_findings("C15"));
     let input = if v["input"].is_object() { &v["input"] } else { &v };
     if input["op"] == "find" {
         if let Some(case) = Case::from_json(input) {
